@@ -14,7 +14,7 @@ from .api import make_source
 from ..paramspace import decode_vector, vector_for
 
 SIZES = {"quick": dict(n_synth=110, n_gen=16, steps=200, seeds=1),
-         "thorough": dict(n_synth=900, n_gen=150, steps=600, seeds=2)}
+         "thorough": dict(n_synth=4000, n_gen=600, steps=600, seeds=2)}
 MODES = list(itertools.product([False, True], repeat=3))
 
 
